@@ -45,14 +45,15 @@ type schedSpec struct {
 }
 
 type schedState struct {
-	idx         map[int]int // controlled thread id -> request index
-	mainOver    bool
-	finalFlying int64
-	outstanding int // left unfinished by the pre-load
-	wantFinal   int // expected in-flight count at quiescence
-	preloadErr  string
-	preShed     bool
-	preOver     bool
+	idx          map[int]int // controlled thread id -> request index
+	mainOver     bool
+	finalFlying  int64
+	outstanding  int // left unfinished by the pre-load
+	wantFinal    int // expected in-flight count at quiescence
+	preloadErr   string
+	preloadClass string
+	preShed      bool
+	preOver      bool
 }
 
 const (
@@ -89,7 +90,9 @@ func schedBody(sp schedSpec) func() {
 			for i := 0; i < 12; i++ {
 				p, err := s.Allow()
 				if err != nil {
-					panic("harness: pre-load Allow was shed")
+					st.preloadClass, st.preloadErr = "sched-shed-cpu-never-over", fmt.Sprintf("pre-load: Allow #%d was shed although the CPU was never over the threshold", i+1)
+					vsched.SetUser(st)
+					return
 				}
 				ps = append(ps, p)
 			}
@@ -108,14 +111,16 @@ func schedBody(sp schedSpec) func() {
 			if sp.preload == "hot" {
 				st.mainOver = true
 				if _, err := s.Allow(); err == nil {
-					panic("harness: pre-load expected a shed (cpu over, 2 in flight > capacity 1)")
+					st.preloadClass, st.preloadErr = "sched-no-shed-over-capacity", "pre-load: Allow was admitted although the CPU is over the threshold and 2 requests in flight (moving average ≈ 3.4) exceed the capacity estimate 1 (1 pass of 1 ns in the window)"
+					vsched.SetUser(st)
+					return
 				}
 				st.mainOver = false
 				st.preShed, st.preOver = true, true
 			}
 		}
 		if f := load.VerifFlying(s); f != int64(st.outstanding) {
-			st.preloadErr = fmt.Sprintf("after the sequential pre-load (12 admitted, %d resolved) the in-flight counter is %d, expected %d", 12-st.outstanding, f, st.outstanding)
+			st.preloadClass, st.preloadErr = "sched-flying-leak", fmt.Sprintf("after the sequential pre-load (12 admitted, %d resolved) the in-flight counter is %d, expected %d", 12-st.outstanding, f, st.outstanding)
 			vsched.SetUser(st)
 			return
 		}
@@ -193,7 +198,7 @@ func schedCheck(sp schedSpec) func(e *vsched.Exec) vx.Verdict {
 			return vx.Verdict{Class: "harness-no-state", Msg: "body did not finish"}
 		}
 		if st.preloadErr != "" {
-			return vx.Verdict{Class: "sched-flying-leak", Msg: st.preloadErr}
+			return vx.Verdict{Class: st.preloadClass, Msg: st.preloadErr}
 		}
 		n := len(sp.reqs)
 		pos := map[string]int{} // "<kind> <i>" -> log position
